@@ -283,9 +283,9 @@ PROPS["C13"] = dict(
                 "NumberOfRvaAndSizes, certificate directory address/size, per-section size/pointer/virtual size, each WIN_CERTIFICATE dwLength/revision/type), truncation at every structural boundary, overlapping sections, byte noise; valid images whose "
                 "table entry is a hostile blob; signatures damaged structurally (30 C04 classes) and at DER level (truncation, hostile length octets, nesting up to 5000, tag changes, slices dropped/duplicated); random bytes up to 64 KiB. "
                 "Each input is run in a persistent worker process through Parse + Signatures + Hash + Bytes + Open + Verify (images) resp. ParsePKCS7/ParseAuthenticode/descriptor Verify (blobs). "
-                "Oracle: the worker answers with a value or an error; a recovered panic, a dead worker (log.Fatal / os.Exit / fatal error, call site from the log line), a reproduced timeout (10 s, re-run alone with 60 s) "
+                "Oracle: the worker answers with a value or an error; a recovered panic, a dead worker (log.Fatal / os.Exit / fatal error, call site from the log line), a reproduced timeout (4 s, re-run alone with 24 s) "
                 "or more than 16 MiB + 256 x input bytes allocated is a violation unless its site matches a listed known finding. Thorough adds coverage-guided native fuzzing of the same entry points."),
-    level_note=("Trusts the sandbox classifier (self-checked per run with a deliberate panic, log.Fatal, 64 MiB allocation, hang, value and error). 'Time proportional to the input' is decided as 'no reproducible timeout at 10^4 x the typical latency', "
+    level_note=("Trusts the sandbox classifier (self-checked per run with a deliberate panic, log.Fatal, 64 MiB allocation, hang, value and error). 'Time proportional to the input' is decided as 'no reproducible timeout at several thousand times the typical latency', "
                 "not as a complexity bound. Known finding by allocation site: debug/pe.readRelocs (stdlib)."),
     rule=("case = (entry point, input bytes). Non-trivial = input on which the entry point got past its first validation step (the worker reports the deepest stage reached: Parse / ParsePKCS7 succeeded); distinct by SHA-256 of (entry, input)."),
     assumptions=["allocation is measured with runtime/metrics /gc/heap/allocs:bytes around the request in the worker"],
